@@ -16,7 +16,9 @@ META = {
 
 FINDINGS = {
     "C24-gzip-swallows-error": "decompressGzip returns its nil named result instead of the library error: corrupt gzip data yields (empty, nil)",
-    "C24-snappy-lib-undetected-corruption": "raw snappy blocks carry no checksum: a damaged block can decode to different data with no error",
+    "C24-snappy-no-checksum": "raw snappy blocks carry no checksum: a damaged block can decode to different data with no error",
+    "C24-lz4-truncated-frame-header": "an lz4 frame cut at or before its first block-size field decodes to empty data with no error",
+    "C24-zstd-empty-input": "a zstd frame truncated to zero bytes decodes to empty data with no error",
     "C24-lz4-lib-undetected-corruption": "a damaged lz4 frame decoded to different data with no error",
     "C24-gzip-lib-undetected-corruption": "a damaged gzip stream decoded to different data with no error",
     "C24-zstd-lib-undetected-corruption": "a damaged zstd frame decoded to different data with no error",
@@ -28,7 +30,7 @@ def spec_violated(rep):
         f = op.split(" ")
         if f[0] == "dec" and line.startswith("ok") and line[3:] != f[2]:
             return "Decompress(%s) of damaged data returned different data with a nil error" % f[1]
-        if f[0] == "rt" and line != "ok":
+        if f[0] in ("rt", "rtb") and line != "ok":
             return "round trip through %s returned %s" % (f[1], line)
         if line == "panic":
             return "Decompress(%s) panicked" % f[1]
@@ -57,8 +59,8 @@ def run(ctx):
     by_alg = {}
     for op, rep in zip(c.ops, c.impl):
         f = op.split(" ")
-        if f[0] in ("dec", "rt"):
-            lib = "rt" if f[0] == "rt" else ("lib-" + ("ok" if f[4].startswith("O:") else f[4]))
+        if f[0] in ("dec", "rt", "rtb"):
+            lib = f[0] if f[0] != "dec" else ("lib-" + ("ok" if f[4].startswith("O:") else f[4]))
             k = "%s/%s/%s" % (f[1], lib, rep.split(" ")[0])
             by_alg[k] = by_alg.get(k, 0) + 1
     distinct = len(set(c.ops))
